@@ -95,11 +95,11 @@ func genReresolve(rng *rand.Rand) *reInput {
 	for t := 0; t < n; t++ {
 		st := reStep{Table: map[string]string{}, Fire: t > 0 && rng.Intn(2) == 0}
 		for _, k := range []string{"r0", "r1", "r2"} {
-			if rng.Intn(8) > 0 {
+			if rng.Intn(14) > 0 {
 				st.Table[k] = reValue(rng)
 			}
 		}
-		if rng.Intn(8) > 0 {
+		if rng.Intn(14) > 0 {
 			st.Table["r3"] = reSimple(rng)
 		}
 		if rng.Intn(10) > 0 {
